@@ -674,6 +674,23 @@ pub fn c15(out: &mut Out) {
                 problems.push(json!({"request": line, "token": "read r/a r/?, write w/# w, no delete member", "problem": "request outside the grant must be answered with exactly one authorization error (14) and nothing else", "received": format!("{msgs:?}")}));
             }
         }
+        // 5. a token is judged every time it is presented: one that has run out since it was last accepted is refused
+        //    (jsonwebtoken's default leeway is 60 s: a token 56 s past its `exp` is still accepted, 5 s later it is not)
+        {
+            let now = std::time::SystemTime::now().duration_since(std::time::UNIX_EPOCH).map(|d| d.as_secs()).unwrap_or(0);
+            let tok3 = token("secret", json!({"sub": "s3", "name": "n3", "exp": now - 56, "worterbuchPrivileges": {"read": ["#"], "write": ["#"], "delete": ["#"]}}));
+            let mut s3 = Session::open(&api, "late", 0x402, true).await;
+            let (_o, m) = s3.request(&json!({"authorizationRequest": {"authToken": tok3}}).to_string()).await;
+            if m.iter().any(|x| x.0 == "authorized") {
+                tokio::time::sleep(std::time::Duration::from_millis(5200)).await;
+                let mut s4 = Session::open(&api, "later", 0x403, true).await;
+                let (_o, m1) = s4.request(&json!({"authorizationRequest": {"authToken": tok3}}).to_string()).await;
+                let (_o2, m2) = s4.request(&json!({"get": {"transactionId": 60, "key": "r/a"}}).to_string()).await;
+                if m1.iter().any(|m| m.0 == "authorized") || m2.iter().any(|m| m.0 == "state") {
+                    problems.push(json!({"problem": "a token that has run out since it was last accepted is accepted again", "received": format!("{m1:?} {m2:?}")}));
+                }
+            }
+        }
         // no effect of the refused requests
         for (k, want) in [("r/a", Some("orig")), ("x/a", Some("orig")), ("w/a", Some("new")), ("d/a", None), ("r/a/", Some("orig")), ("w/", Some("new"))] {
             let got = api.get(k.to_owned()).await.ok();
